@@ -27,6 +27,11 @@ Local Open Scope Z_scope.
 Inductive owner := OwUser | OwLib | OwSmLib.
 Definition is_user (o : owner) : bool := match o with OwUser => true | _ => false end.
 Definition is_sm (o : owner) : bool := match o with OwSmLib => true | _ => false end.
+Definition is_lib (o : owner) : bool := match o with OwLib => true | _ => false end.   (* owner == XMPP_QUEUE_STROPHE *)
+(* _send_raw: "if (owner == XMPP_QUEUE_STROPHE && !sm_enabled) owner = XMPP_QUEUE_SM_STROPHE;"
+   (library elements queued before stream management is enabled are not part of the acknowledged stream) *)
+Definition effective_owner (sm_enabled : bool) (o : owner) : owner :=
+  if is_lib o && negb sm_enabled then OwSmLib else o.
 
 Record node := mkNode {
   n_data : list Z;            (* data, len = length *)
@@ -118,7 +123,8 @@ Definition set_r_sent (st : state) (b : bool) : state :=
        (s_sent_nr st) (s_smq_head st) (s_smq_tail st) (s_connected st) (s_sched st) (s_wire st).
 
 (* _send_raw, including the nested send_raw(req_ack, SM_STROPHE, item) *)
-Definition send_raw_inner (st : state) (data : list Z) (ow : owner) (ud : option nat) : outcome state :=
+Definition send_raw_inner (st : state) (data : list Z) (ow0 : owner) (ud : option nat) : outcome state :=
+  let ow := effective_owner (s_sm_enabled st) ow0 in
   do r <- enqueue st data ow ud;
   let '(st1, item) := r in
   if negb (is_sm ow) && s_sm_enabled st1 && negb (s_r_sent st1) then
